@@ -49,6 +49,7 @@ type World struct {
 	refundSeq     uint64
 	authUsed      bool // a queued transaction of the current block already targets authC
 	installed     map[common.Address]bool
+	escrowHeights map[uint64]bool
 	authC         *common.Address // the one contract whose script uses AUTHCALL (re-assembled before every block)
 }
 
@@ -97,6 +98,7 @@ func (w *World) Reset(emit bool) {
 	w.codes = map[common.Address]Script{}
 	w.authC = nil
 	w.installed = map[common.Address]bool{}
+	w.escrowHeights = map[uint64]bool{}
 	w.miners = nil
 	w.pendingMiners = nil
 	w.installMainNode()
